@@ -5,6 +5,9 @@
 //	           form), deterministic tapes: op lines for the Lean model + oracle
 //	c06 cot    COT / ROT over IKNP with MITCCRH, both adversary modes, shared /
 //	           non-shared, and MITCCRH.Hash directly: op lines + oracle
+//	c06 co-bytes  ot.CO over p2p.Conn on a recording Duplex with deterministic
+//	           tapes: every byte on the wire + the receiver's labels vs the Lean
+//	           P-256/SHA-256 model
 //	c06 proto  oracle only: Chou-Orlandi (protocol, pure helpers, single
 //	           transfer API), RSA (protocol, single transfer API), COT/ROT over
 //	           the real base OTs
@@ -17,7 +20,7 @@ import (
 
 func main() {
 	if len(os.Args) < 2 {
-		fmt.Fprintln(os.Stderr, "usage: c06 iknp|cot|proto [flags]")
+		fmt.Fprintln(os.Stderr, "usage: c06 iknp|cot|proto|co-bytes [flags]")
 		os.Exit(2)
 	}
 	switch os.Args[1] {
@@ -27,6 +30,8 @@ func main() {
 		os.Exit(cotMode(os.Args[2:]))
 	case "proto":
 		os.Exit(protoMode(os.Args[2:]))
+	case "co-bytes":
+		os.Exit(coBytesMode(os.Args[2:]))
 	default:
 		fmt.Fprintf(os.Stderr, "unknown mode %q\n", os.Args[1])
 		os.Exit(2)
